@@ -123,10 +123,12 @@ impl CredentialMechanismClient {
     #[verifier::external_body]
     pub fn prepare_request(&mut self, attributes: &mut StunAttributes) -> (r: Result<(), StunAgentError>)
         ensures final(self).violated() == old(self).violated(),
+            r is Err ==> !(r->Err_0 is MaxOutstandingRequestsReached),
     { unimplemented!() }
     #[verifier::external_body]
     pub fn prepare_indication(&mut self, attributes: &mut StunAttributes) -> (r: Result<(), StunAgentError>)
         ensures final(self).violated() == old(self).violated(),
+            r is Err ==> !(r->Err_0 is MaxOutstandingRequestsReached),
     { unimplemented!() }
     #[verifier::external_body]
     pub fn recv_message(&mut self, raw_data: &[u8], message: &StunMessage) -> (r: Result<(), IntegrityError>)
@@ -182,6 +184,28 @@ pub open spec fn rtt_updated(h0: RttCalcuator, h1: RttCalcuator, r: Duration) ->
 //@end
 
 
+//@item stun_agent :: mod client > fn encode_buffer
+//@tags C13 C06 C03
+//@sub "encoder.encode(&mut buffer, msg)" => "encoder.encode(buffer.as_mut_slice(), msg)"
+//@spec
+    ensures r is Ok <==> encodes_ok(*msg, buffer@.len() as int),
+        r is Ok ==> r->Ok_0@ == wire_of(*msg),
+//@end
+//@item stun_agent :: mod client > fn prepare_stun_message
+//@tags C13 C10
+//@spec
+    ensures mechanism is Some ==> final(mechanism->Some_0).violated() == old(mechanism->Some_0).violated(),
+        r is Err ==> !(r->Err_0 is MaxOutstandingRequestsReached),
+//@end
+
+pub open spec fn dl(tr: Map<TransactionId, StunTransaction>, id: TransactionId) -> int { tr[id].rtos.deadline() }
+// C11: `(id, left)` is an accurate timer notification at time `now`: it names an outstanding request with the
+// earliest pending deadline and gives the time remaining until it (zero if overdue)
+pub open spec fn notif_ok_m(tr: Map<TransactionId, StunTransaction>, id: TransactionId, left: Duration, now: int) -> bool {
+    &&& tr.contains_key(id)
+    &&& left.ns@ == sat_sub(dl(tr, id), now)
+    &&& forall|k: TransactionId| tr.contains_key(k) ==> dl(tr, id) <= #[trigger] dl(tr, k)
+}
 impl StunRttCalcuator {
     pub open spec fn wf(&self) -> bool {
         match self {
@@ -250,8 +274,17 @@ impl StunClient {
 //@end
 //@item stun_agent :: mod client > impl StunClient > fn set_timeout
 //@tags C06 C15 C11 C12
+//@closure 1
+|| -> (e: StunAgentError)
+    ensures e is InternalError,
 //@head
     let ghost rtt0 = self.rtt;
+//@tail
+    proof {
+        let m = rto_manager;
+        assert(sched(m.rtt(), m.rm(), m.rc(), 1) == sched(m.rtt(), m.rm(), m.rc(), 0) + ivl(m.rtt(), m.rm(), m.rc(), 0));
+        assert(sched(m.rtt(), m.rm(), m.rc(), 0) == 0);
+    }
 //@spec
     requires old(self).wf(), !old(self).transactions@.contains_key(transaction_id),
     ensures
@@ -280,10 +313,142 @@ impl StunClient {
             let mgr = r->Ok_0;
             &&& mgr.wf() && mgr.latest == Some(instant) && mgr.j() == 1
             &&& mgr.last_rto.ns@ == ivl(mgr.rtt(), mgr.rm(), mgr.rc(), 0)
+            &&& mgr.origin() == instant.ns@
             &&& final(self).timeouts.ms() == old(self).timeouts.ms().insert(
                     TimeoutItem { instant, timeout: mgr.last_rto, transaction_id })
         },
-        r is Err ==> final(self).timeouts == old(self).timeouts,
+        r is Err ==> final(self).timeouts == old(self).timeouts && !(r->Err_0 is MaxOutstandingRequestsReached),
+//@end
+    pub open spec fn deadline(&self, id: TransactionId) -> int { dl(self.transactions@, id) }
+    pub open spec fn notif_ok(&self, id: TransactionId, left: Duration, now: int) -> bool {
+        notif_ok_m(self.transactions@, id, left, now)
+    }
+    pub proof fn lemma_notif(&self, now: int, x: TimeoutItem, left: Duration)
+        requires self.wf(), self.timeouts.ms().count(x) > 0,
+            forall|y: TimeoutItem| self.timeouts.ms().count(y) > 0 ==> x.expiry() <= y.expiry(),
+            left.ns@ == (if x.expiry() > now { x.expiry() - now } else { 0 }),
+        ensures self.notif_ok(x.transaction_id, left, now),
+    {
+        assert(x == self.entry(x.transaction_id));
+        assert(x.expiry() == self.deadline(x.transaction_id));
+        assert forall|k: TransactionId| self.transactions@.contains_key(k) implies dl(self.transactions@, x.transaction_id) <= #[trigger] dl(self.transactions@, k) by {
+            assert(self.tr_ok(k));
+            let y = self.entry(k);
+            assert(self.timeouts.ms().count(y) > 0);
+            assert(x.expiry() <= y.expiry());
+            assert(y.expiry() == self.deadline(k));
+        }
+    }
+//@item stun_agent :: mod client > impl StunClient > fn prepare_request
+//@tags C13
+//@spec
+    ensures final(self).transactions == old(self).transactions, final(self).timeouts == old(self).timeouts,
+        final(self).rtt == old(self).rtt, final(self).max_transactions == old(self).max_transactions,
+        final(self).transaction_events == old(self).transaction_events,
+        final(self).use_fingerprint == old(self).use_fingerprint,
+        final(self).encoder == old(self).encoder, final(self).decoder == old(self).decoder,
+        r is Err ==> !(r->Err_0 is MaxOutstandingRequestsReached),
+//@end
+//@item stun_agent :: mod client > impl StunClient > fn prepare_indication
+//@tags C13
+//@spec
+    ensures final(self).transactions == old(self).transactions, final(self).timeouts == old(self).timeouts,
+        final(self).rtt == old(self).rtt, final(self).max_transactions == old(self).max_transactions,
+        final(self).transaction_events == old(self).transaction_events,
+        final(self).use_fingerprint == old(self).use_fingerprint,
+        final(self).encoder == old(self).encoder, final(self).decoder == old(self).decoder,
+        r is Err ==> !(r->Err_0 is MaxOutstandingRequestsReached),
+//@end
+//@item stun_agent :: mod client > impl StunClient > fn send_request
+//@tags C12 C11 C05 C06 C13 C15
+//@rules R11
+//@closure 1
+|e: StunEncodeError| -> (x: StunAgentError)
+    ensures x is InternalError,
+//@head
+    broadcast use axiom_txid_key_model;
+//@before "let transaction ="
+    // freshness of the random 96-bit transaction id chosen by create_stun_message (assumption, see DESIGN.md)
+    proof { assume(!self.transactions@.contains_key(msg.sid())); }
+    let ghost pre = *self;
+//@before "self.transactions.insert("
+    let ghost mid = *self;
+    let ghost new_entry = TimeoutItem { instant, timeout: transaction.rtos.last_rto, transaction_id: msg.sid() };
+//@after "self.transactions.insert("
+    proof {
+        assert(self.transactions@.dom() =~= old(self).transactions@.dom().insert(msg.sid()));
+        assert(self.entry(msg.sid()) == new_entry);
+        assert forall|id: TransactionId| #[trigger] self.transactions@.contains_key(id) implies self.tr_ok(id) by {
+            if id != msg.sid() { assert(old(self).tr_ok(id)); assert(self.entry(id) == old(self).entry(id)); }
+        }
+        assert(self.timers_ok()) by {
+            assert forall|x: TimeoutItem| #[trigger] self.timeouts.ms().count(x) > 0 implies
+                self.transactions@.contains_key(x.transaction_id) && self.timeouts.ms().count(x) == 1
+                && x == self.entry(x.transaction_id) by {
+                if x != new_entry {
+                    assert(old(self).timeouts.ms().count(x) > 0);
+                    assert(x.transaction_id != msg.sid());
+                } else {
+                    assert(old(self).timeouts.ms().count(x) == 0) by {
+                        if old(self).timeouts.ms().count(x) > 0 { assert(old(self).transactions@.contains_key(x.transaction_id)); }
+                    }
+                }
+            }
+        }
+        assert(self.wf());
+    }
+//@after "if let Some((id, left)) = self.timeouts.next_timeout(instant)"
+    proof {
+        if events.events@.len() == 2 {
+            let x = self.timeouts.top();
+            self.lemma_notif(instant.ns@, x, events.events@[1]->RestransmissionTimeOut_0.1);
+        }
+    }
+//@tail
+    proof {
+        let id = msg.sid();
+        assert(!old(self).transactions@.contains_key(id));
+        assert(self.transactions@.dom() == old(self).transactions@.dom().insert(id));
+        assert(self.transactions@.len() == old(self).transactions@.len() + 1);
+        assert(self.transactions@[id].instant == Some(instant));
+        assert(self.transactions@[id].rtos.j() == 1);
+        assert(self.transactions@[id].rtos.origin() == instant.ns@);
+        assert(self.transaction_events.events@.len() == 2);
+        assert(self.transaction_events.events@[0] == StunClientEvent::OutputPacket(self.transactions@[id].packet));
+        assert(forall|k: TransactionId| old(self).transactions@.contains_key(k) ==> self.transactions@[k] == old(self).transactions@[k]);
+        assert(self.transaction_events.events@[1] is RestransmissionTimeOut);
+        assert(self.notif_ok(self.transaction_events.events@[1]->RestransmissionTimeOut_0.0,
+                    self.transaction_events.events@[1]->RestransmissionTimeOut_0.1, instant.ns@));
+    }
+//@spec
+    requires old(self).wf(),
+    ensures final(self).wf(),
+        final(self).max_transactions == old(self).max_transactions,
+        final(self).use_fingerprint == old(self).use_fingerprint,
+        // C12: refused exactly when the table is full, and then nothing at all changes
+        old(self).transactions@.len() >= old(self).max_transactions ==>
+            r is Err && r->Err_0 is MaxOutstandingRequestsReached && *final(self) == *old(self),
+        (r is Err && r->Err_0 is MaxOutstandingRequestsReached) ==> old(self).transactions@.len() >= old(self).max_transactions,
+        // any other failure leaves the requests, their timers and the pending events alone
+        r is Err ==> final(self).transactions@ == old(self).transactions@ && final(self).timeouts == old(self).timeouts
+            && final(self).transaction_events == old(self).transaction_events,
+        r is Ok ==> {
+            let id = r->Ok_0;
+            &&& !old(self).transactions@.contains_key(id)
+            &&& final(self).transactions@.dom() == old(self).transactions@.dom().insert(id)
+            &&& final(self).transactions@.len() == old(self).transactions@.len() + 1
+            &&& (forall|k: TransactionId| old(self).transactions@.contains_key(k) ==> final(self).transactions@[k] == old(self).transactions@[k])
+            // first transmission now; the first interval of the schedule is running (C06), RTT sample armed (C15)
+            &&& final(self).transactions@[id].instant == Some(instant)
+            &&& final(self).transactions@[id].rtos.j() == 1
+            &&& final(self).transactions@[id].rtos.origin() == instant.ns@
+            // exactly: the packet, then an accurate timer notification (C11: some request is outstanding)
+            &&& final(self).transaction_events.events@.len() == 2
+            &&& final(self).transaction_events.events@[0] == StunClientEvent::OutputPacket(final(self).transactions@[id].packet)
+            &&& final(self).transaction_events.events@[1] is RestransmissionTimeOut
+            &&& final(self).notif_ok(final(self).transaction_events.events@[1]->RestransmissionTimeOut_0.0,
+                    final(self).transaction_events.events@[1]->RestransmissionTimeOut_0.1, instant.ns@)
+        },
 //@end
 }
 proof fn vx_sentinel() ensures false {}
